@@ -17,7 +17,7 @@ HARNESS = os.path.abspath(os.path.join(HERE, '..', 'witness', 'witness_harness.r
 SUITES = {
     'C01': ['pipeline', 'loop'], 'C02': ['loop', 'block'], 'C03': ['pipeline', 'loop', 'subs'], 'C04': ['loop', 'subs', 'twostores', 'block'],
     'C05': ['channel', 'block'], 'C06': ['channel', 'balance'], 'C07': ['pipeline', 'loop', 'subs', 'latereg'], 'C08': ['loop'], 'C09': ['subs'],
-    'C10': ['channeled'], 'C11': ['pipeline'], 'C12': ['pipeline'], 'C14': ['iter'], 'C15': ['subs', 'loop'], 'C16': ['selector'],
+    'C10': ['channeled'], 'C11': ['pipeline', 'loop', 'block'], 'C12': ['pipeline', 'loop'], 'C14': ['iter'], 'C15': ['subs', 'loop'], 'C16': ['selector'],
     'C17': ['builder'], 'C18': ['pipeline', 'loop', 'channel', 'balance'], 'C19': ['twostores'],
 }
 BOUNDS = ('pipeline: 0..2 middlewares x 4 verdicts x 3 hooks x 5 reducer chains x {0,2} subscribers; loop: 5 chains x {0,1,3} subscribers x '
